@@ -561,6 +561,29 @@ def check_transform(acc: core.Acc, a: tuple, b: tuple) -> None:
     wantv = vec_mat(vec_mat((1.5, -2.0, 3.25), ra), rb)
     if vdiff(tuple(v), wantv) > 1e-9:
         acc.fail('transform_result', {'ta': list(a), 'tb': list(b)}, f'with Vec.transform() as m: m @= Angle{a}; m @= Matrix{b} gave {tuple(v)}, expected {wantv}')
+        return
+    # two transforms open at once (nested with-blocks, outer edited before and after the inner one), and a yielded matrix kept
+    # past its block: each block has its own matrix
+    v1, v2, a2 = Vec(1.5, -2.0, 3.25), Vec(-4.0, 0.5, 2.0), Angle(*b)
+    with v1.transform() as m1:
+        m1 @= Angle(*a)
+        with v2.transform() as m2:
+            m2 @= Angle(*b)
+            with a2.transform() as m3:
+                m3 @= Angle(*a)
+        m1 @= Angle(*b)
+    kept = rows(m1)
+    with Vec(9.0, 9.0, 9.0).transform() as m4:
+        m4 @= Angle(*b)
+    want1 = vec_mat(vec_mat((1.5, -2.0, 3.25), ra), rb)
+    want2 = vec_mat((-4.0, 0.5, 2.0), rb)
+    want3 = mat_prod(rb, ra)
+    if vdiff(tuple(v1), want1) > 1e-9 or vdiff(tuple(v2), want2) > 1e-9 or mdiff(rows(Matrix.from_angle(a2)), want3) > 2e-3:
+        acc.fail('transform_contexts_interfere', {'ta': list(a), 'tb': list(b)}, f'nested transform() blocks (outer Vec by Angle{a} then Angle{b}, inner Vec by Angle{b}, '
+                 f'innermost Angle{b} by Angle{a}): outer {tuple(v1)} (expected {want1}), inner {tuple(v2)} (expected {want2}), angle {a2!r} (expected matrix {want3})')
+        return
+    if mdiff(rows(m1), kept) > 0 or mdiff(kept, mat_prod(ra, rb)) > 1e-9:
+        acc.fail('transform_contexts_interfere', {'ta': list(a), 'tb': list(b)}, f'the matrix yielded by a finished Vec.transform() block changed when a later block ran: {kept} -> {rows(m1)}')
 
 
 def lattice_g1():
